@@ -394,7 +394,9 @@ Violations(q, o) ==
                  best == CHOOSE f \in embs : \A g \in embs : Cardinality(bad(f)) <= Cardinality(bad(g))
              IN {"constraint-" \o e : e \in bad(best)})
   \cup (IF q.csill > 0 => (m.total.finite /\ \A i \in 1..nv : WithinTol(m.sumsill[i], q.csill)) THEN {} ELSE {"constant-sill"})
-  \cup (IF q.opt.keepint => \E k \in K : IntrinsicOnly(covs[k].type) THEN {} ELSE {"keep-intrinsic"})
+  \* keep_intstr: when structures of that kind are offered, one of them at least is kept
+  \cup (IF q.opt.keepint /\ (\E i \in 1..Len(q.types) : IntrinsicOnly(q.types[i])) => \E k \in K : IntrinsicOnly(covs[k].type)
+        THEN {} ELSE {"keep-intrinsic"})
   \cup (IF ~q.opt.aniso => \A k \in K : ~Aniso(covs[k]) THEN {} ELSE {"auth-aniso"})
   \cup (IF q.opt.iso2d /\ nd >= 2 => \A k \in K : Ranged(covs[k]) => covs[k].anis2d <= TolIso THEN {} ELSE {"lock-iso2d"})
   \cup (IF ~q.opt.rot /\ nd >= 2 /\ FirstDirHorizontal(q) => \A k \in K : Aniso(covs[k]) => AxisOnRef(covs[k], nd) THEN {} ELSE {"auth-rotation"})
